@@ -1,5 +1,16 @@
 package h_scn
 
-import "go.uber.org/zap"
+import (
+	"go.uber.org/zap"
+	"go.uber.org/zap/zapcore"
+)
 
 var nopLog = zap.NewNop()
+
+type discard struct{}
+
+func (discard) Write(p []byte) (int, error) { return len(p), nil }
+func (discard) Sync() error                 { return nil }
+
+// debugLog formats every debug message (so that logging code paths run) and throws it away.
+var debugLog = zap.New(zapcore.NewCore(zapcore.NewJSONEncoder(zap.NewDevelopmentEncoderConfig()), discard{}, zapcore.DebugLevel))
